@@ -97,6 +97,10 @@ def handleFuncOpts (s : St) (expShape : Shape) (expType : String) (col : Bool) (
 
 def sameOrd (a b : Dense) : Bool := a.ap.o.col == b.ap.o.col
 
+/-- `E.<Op>Incr` / `E.<Op>IterIncr` refuse a length-one increment when exactly one operand is a scalar; the engine
+    method returns that error after `handleFuncOpts` has already prepared the destination -/
+def incrRefused (a b incr : Win) : Bool := ((isSc a && !isSc b) || (isSc b && !isSc a)) && isSc incr
+
 /-- arithmetic `StdEng.<Op>(a, b, opts...)` (tensor-tensor) -/
 def engArithVV (s : St) (op : String) (tc : List String) (a b : Dense) (o : Opts) : Res EngOut := do
   -- binaryCheck
@@ -119,6 +123,7 @@ def engArithVV (s : St) (op : String) (tc : List String) (a b : Dense) (o : Opts
     let ib ← b.itStream s
     match fo.incr, fo.reuse with
     | true, some r =>
+      if incrRefused a.win b.win r.win then return ⟨s, some r, .failed⟩
       let s ← eOpIterIncr s a.win b.win r.win f ia ib (← r.itStream s) fv
       pure ⟨s, some r, .reuse⟩
     | _, some r =>
@@ -138,6 +143,7 @@ def engArithVV (s : St) (op : String) (tc : List String) (a b : Dense) (o : Opts
   else
     match fo.incr, fo.reuse with
     | true, some r =>
+      if incrRefused a.win b.win r.win then return ⟨s, some r, .failed⟩
       let s ← eOpIncr s a.win b.win r.win f fv
       pure ⟨s, some r, .reuse⟩
     | _, some r =>
@@ -195,6 +201,7 @@ def engArithScalar (s : St) (op : String) (tc : List String) (t : Dense) (sc : S
     let (ia, ib) : ItS × ItS := if leftTensor then (it, []) else ([], it)
     match fo.incr, fo.reuse with
     | true, some r =>
+      if incrRefused dA dB r.win then return ⟨s, some r, .failed⟩
       let s ← eOpIterIncr s dA dB r.win f ia ib (← r.itStream s) fv
       pure ⟨s, some r, .reuse⟩
     | _, some r =>
@@ -220,6 +227,7 @@ def engArithScalar (s : St) (op : String) (tc : List String) (t : Dense) (sc : S
   else
     match fo.incr, fo.reuse with
     | true, some r =>
+      if incrRefused dA dB r.win then return ⟨s, some r, .failed⟩
       let s ← eOpIncr s dA dB r.win f fv
       pure ⟨s, some r, .reuse⟩
     | _, some r =>
